@@ -884,15 +884,11 @@ pub fn lis(
 
     // get operands
     let dst = get_register(detail.operands[0].reg())?.scalar();
-    let src = expr_const(detail.operands[1].imm() as u64, 32);
+    // the immediate becomes the upper half-word, the lower half-word is zero
+    let src = expr_const((detail.operands[1].imm() as u64) << 16, 32);
 
     let block_index = {
         let block = control_flow_graph.new_block()?;
-
-        let src = Expression::or(
-            Expression::and(src.clone(), expr_const(0x0000_ffff, 32))?,
-            Expression::shl(src, expr_const(16, 32))?,
-        )?;
 
         block.assign(dst, src);
 
